@@ -57,6 +57,26 @@ def payload_census(rel):
     return {id(n): (type(n).__name__, None if n.payload is None else id(n.payload), n) for n in interp.walk(rel)}
 
 
+def materializations_on_the_evaluation_path(rel):
+    """Materialization nodes the Processor has to evaluate: reachable from the root without
+    crossing a relation that already has a payload or a Transfer of a statically trivial relation
+    (for those the Processor documents that it does not descend)."""
+    import lsst.daf.relation as R
+
+    out, stack, seen = [], [rel], set()
+    while stack:
+        n = stack.pop()
+        if id(n) in seen or n.payload is not None:
+            continue
+        seen.add(id(n))
+        if isinstance(n, R.Transfer) and (n.max_rows == 0 or n.is_join_identity):
+            continue
+        if isinstance(n, R.Materialization):
+            out.append(n)
+        stack.extend(interp.children(n))
+    return out
+
+
 def check_source(source, what):
     """Hook precondition: can ``source.engine`` evaluate ``source`` on its own?"""
     import lsst.daf.relation as R
@@ -118,6 +138,7 @@ def run_case(case):
             return out
         before = payload_census(rel)
         before_str, before_repr = str(rel), repr(rel)
+        needed_mats = materializations_on_the_evaluation_path(rel)
         pattern = []
         first_rows = None
         for rep in range(case.get("repeats", 1)):
@@ -175,6 +196,10 @@ def run_case(case):
                     else:
                         c["materializations_annotated"] = c.get("materializations_annotated", 0) + 1
             before = after
+            # documented: on return every Materialization of the tree passed in has a payload
+            for node in needed_mats:
+                if node.payload is None:
+                    out["violations"].append({"kind": "materialization_left_without_payload", "detail": f"{short(node)} in {model.show(prog)} after pass {rep + 1}"})
         sig_prog = gen.op_signature(prog)
         if ("x" in sig_prog or "m" in sig_prog) and any(pattern):
             out["sig"] = sig_prog + "|" + "/".join(pattern)
